@@ -262,6 +262,9 @@ func init() {
 					"[D01].[M01].[Y0001] [H01]:[m01]:[s01]",
 					"[Y0001][M01][D01][H01][m01][s01]",
 					"[Y0001]-[M01]-[D01]T[H01]:[m01]:[s01].[f001][Z01:01]",
+					"[s01].[m01].[H01] [D01].[M01].[Y0001]",
+					"[H01]:[m01]:[s01].[f001][D01]/[M01]/[Y0001]",
+					"[m01],[s01] [H01] [Y0001][M01][D01]",
 				}
 				pic := pics[c.Choose(len(pics))]
 				ms := []int64{1521801216617, 86399999, 253402300799999, -30610224000000 + 1, 1000}[c.Choose(5)]
